@@ -1041,7 +1041,8 @@ func ruleWidthClamp(w *World, r *Report, pfx string) {
 		switch rv {
 		case avail:
 		case req:
-			if !p.hasCmp(-1, token.LEQ, func(v Val) bool { return v.V == req }, func(v Val) bool { return v.V == avail }) {
+			isReq, isAvail := func(v Val) bool { return v.V == req }, func(v Val) bool { return v.V == avail }
+			if !p.hasCmp(-1, token.LEQ, isReq, isAvail) && !p.hasCmp(-1, token.LSS, isReq, isAvail) {
 				bad = "the requested width is returned on a path that does not carry requested <= available: a bar asked to be wider than the space left overflows the row"
 			}
 		default:
